@@ -750,7 +750,7 @@ func runC12(c *Ctx) {
 	for _, cs := range corpusCases() {
 		h.ruleSetCase(cs.rules, cs.pkts, "corpus")
 	}
-	nGood, nBad := 220, 130
+	nGood, nBad := 190, 110
 	if c.Thorough() {
 		nGood, nBad = 3000, 1500
 	}
